@@ -4,14 +4,15 @@ from . import c06
 from .. import universe as U
 from .. import refunify as R
 from ..engine import Violation
+from ..driver import ScenarioEnd
 
 ANCHORS = UC.ANCHORS + ['recreate_variables', 'get_rule', 'make_query']
-WITNESSES = {'all': ['success', 'failure', 'binds', 'with-prior', 'head-goal']}
+WITNESSES = {'all': ['success', 'failure', 'binds', 'with-prior', 'head-goal', 'head-goal-through-search']}
 OPTS = {'quick': {'selfcheck_mod': 100, 'budget_s': 240}, 'thorough': {'selfcheck_mod': 2000, 'budget_s': 2400}}
 BOUNDS = {
     'quick': 'unordered pairs {A,B} of the C06 quick universe (size(A)+size(B) <= 3, depth <= 1), each unified in both orders under the same '
              'substitution (empty, or one of 12 real prior unifications for leaf pairs); head/goal family: fact t(A) fetched with get_rule vs '
-             'query t(B) built with make_query, A,B of total size <= 3 (<= 4 when both are lists) over {a, symbolic int, $X, $Y, $_, [], [..], [..|$T]}, both orders',
+             'query t(B) built with make_query (unified both ways, and run through make_base_node + next_solution against the reference answers), A,B of total size <= 3 (<= 4 when both are lists) over {a, symbolic int, $X, $Y, $_, [], [..], [..|$T]}, both orders',
     'thorough': 'unordered pairs with size(A)+size(B) <= 5 (depth 1), <= 3 (depth 2); priors as in C06 thorough; head/goal family with sizes <= 3',
 }
 OUTSIDE = c06.OUTSIDE
@@ -99,6 +100,22 @@ def run_hg(drv, case):
                 raise Violation('hg-bindings:' + kk, '%s: %s' % (desc, '; '.join(why) or 'binding cycle'))
     else:
         tags.append('failure')
+    # the same pair through the search itself (fetching the fact, whatever tests precede the unification, the answer)
+    from .. import progs as P
+    from .. import refsld as S
+    clauses = [(('cplx', (t, a)), None)]
+    query = ('cplx', (t, b))
+    try:
+        ref = P.ref_search(m, clauses, query, 3)
+    except S.Outside:
+        return {'tags': tags, 'note': desc}
+    try:
+        run_ = P.impl_search(drv, kb, query, 3, 0)
+    except ScenarioEnd as e:
+        raise Violation('hg-search-%s' % e.why[0], '%s: the search %s' % (desc, e.why[1][:200]))
+    problem = P.compare_runs(m, run_, ref, desc)
+    if problem is not None: raise Violation('hg-search-' + problem[0] + ':' + kk, problem[1])
+    tags.append('head-goal-through-search')
     return {'tags': tags, 'note': desc}
 
 
